@@ -271,6 +271,35 @@ func vfH_C11_tunnel() {
 	vfrt.Assert(p.Shutdown(context.Background()) == nil, "tunnel/shutdown-succeeds-once-drained")
 }
 
+//vf:assume C11-connect-in-flight: a CONNECT was read before shutdown began and shutdown begins while the proxy is dialling its target (inside the dial function); the exchange in flight is answered and the proxy then closes that connection: 0..2 symbolic bytes that the client sends only after shutdown began (they enter the client socket inside the dial function, after the request head was consumed) are not forwarded to the target, both sockets are closed, the open-connection count returns to zero and Shutdown succeeds; client kinds HTTP/1.1 and HTTP/1.0
+
+//vf:harness property=C11 nopanic reach=connect-dial-straddles-shutdown steps=8000000
+func vfH_C11_connect_in_flight() {
+	rt := &vfRT{}
+	p := &Proxy{RoundTripper: rt, WithoutWarning: true}
+	p.init()
+	late := vfrt.Bytes("bytes-sent-after-shutdown-began", vfrt.Choice("late-len", 3))
+	target := NewVfConn([]byte("hello from the target"))
+	head := []string{"CONNECT example.com:443 HTTP/1.1\r\nHost: example.com:443\r\n\r\n", "CONNECT example.com:443 HTTP/1.0\r\n\r\n"}[vfrt.Choice("client-kind", 2)]
+	client := NewVfConn([]byte(head))
+	dials := 0
+	p.DialContext = func(context.Context, string, string) (net.Conn, error) {
+		dials++
+		VfBeginClosing(p) // shutdown begins while the dial is in progress
+		client.In = append(client.In, late...)
+		return target, nil
+	}
+	p.handleLoop(client)
+	vfrt.Assert(dials == 1, "connect-in-flight/dialled-once")
+	vfrt.Reach("connect-dial-straddles-shutdown")
+	vfrt.Assert(target.Out.Len() == 0, "connect-in-flight/bytes-first-sent-after-shutdown-began-are-not-forwarded")
+	vfrt.Assert(client.Closed >= 1, "connect-in-flight/connection-closed-after-the-exchange")
+	vfrt.Assert(target.Closed >= 1, "connect-in-flight/dialled-connection-closed")
+	open, reg := VfOpenConns(p)
+	vfrt.Assert(open == 0 && reg == 0, "connect-in-flight/open-connection-count-returns-to-zero")
+	vfrt.Assert(p.Shutdown(context.Background()) == nil, "connect-in-flight/shutdown-succeeds-once-drained")
+}
+
 //vf:assume C11-concurrent: Shutdown runs on its own goroutine (with its real polling loop; the poll timer fires when every goroutine is blocked) while connection A's request is held at the origin by the harness; connection C arrives during the shutdown on a third goroutine; the harness then lets the origin answer. Goroutines are scheduled cooperatively (8.8); natively the same order is enforced by the harness's channels plus short sleeps before the "has not returned yet" checks
 
 type vfGateRT struct {
